@@ -1,4 +1,29 @@
-(* AllocProofs.v — proofs about the allocation-instrumented view decoder Alloc.v (C20). *)
+(* AllocProofs.v — proofs about the allocation-instrumented view decoder Alloc.v (C20).
+
+   Small spec definitions used in the statements of Props/C20.v:
+   * [Spec.lenN l]     the length of a list as an [N];
+   * [list_table e n st d]  (section 6) the number of entries of the element / offset table
+                       that ComplexListType.Deserialize allocates for List[e, n] in reader
+                       state (st, d): the guards of the decoder written out, None when it
+                       returns before allocating a table;
+   * [erase_limits t]  (section 8) t with every list / bitlist limit replaced by 0.
+   Internal vocabulary: [slen st] = bytes left in the stream; [okres P F st d r] = the outcome
+   r has allocated <= P * scope + P * slen st + F, and if it is a success, <= P * (bytes it
+   consumed) + F; [strictres] = a success consumed >= 1 byte; [tinv t] = the invariant proved
+   by induction on t: okres (perbyte t) (foot t) for every state, and strictres for
+   fixed-size types of non-zero size (this is what bounds the number of elements of a list
+   of fixed-size elements by the bytes consumed).
+
+   Contents
+     1. the instrumentation monad; faithfulness  fst (view_deser_a ..) = view_deser ..
+     2. reader facts (reads consume the stream, scopes shrink)
+     3. the cost calculus: [okres], [good], series of elements
+     4. cost helpers, one lemma [tinv_<constructor>] per type constructor
+     5. [tinv_all]
+     6. the statements of Props/C20.v (bound, top level, list-table lemma)
+     7. Examples (hostile inputs; counterexample to the pure-scope bound in a reader state
+        without limit reader)
+     8. [perbyte] / [foot] do not depend on list limits *)
 From Coq Require Import PeanoNat ZArith ZifyN ZifyNat ZifyBool.
 From Ztyp Require Import Base Bitlen Tree Types Reader View Alloc SizeProofs ReprProofs.
 Open Scope N_scope.
@@ -849,12 +874,12 @@ Lemma union_pick_good (sel scope : N) st1 d1 : forall opts k,
          end) opts k).
 Proof.
   induction opts as [|o os IH]; intros k H.
-  { destruct k; cbn; (split; [lia|discriminate]). }
+  { destruct k; (split; cbn [fst snd alift]; [lia|discriminate]). }
   inversion H as [|? ? Ho Hos]; subst.
   cbn [maxP maxF fold_right]. fold (maxP os) (maxF os).
   destruct k as [|k].
   - destruct (ti_fixed (info o) && negb (ti_size (info o) =? scope - 1)).
-    { cbn. split; [lia|discriminate]. }
+    { split; cbn [fst snd alift]; [lia|discriminate]. }
     destruct (Ho st1 d1) as [[G1 G2] _].
     eapply (okres_mono (N.max (perbyte o) (maxP os)) _ _ _ st1 d1); [apply N.le_refl| |].
     2:{ assert (M1 : perbyte o <= N.max (perbyte o) (maxP os)) by lia.
@@ -902,3 +927,253 @@ Proof.
   - now apply tinv_container. - now apply tinv_union.
 Qed.
 End Bound.
+
+(* ------------------------------------------------------------------------------------ *)
+(** * 6. the statements of Props/C20.v *)
+
+Section Final.
+Variable zh : nat -> chunk.
+
+Notation lenN := Spec.lenN.
+
+(* a. the instrumented decoder computes the same result: [instrumentation_faithful] above *)
+
+(* b. the bound: no list limit occurs in [perbyte] / [foot] *)
+Theorem alloc_bound t st d :
+  snd (view_deser_a zh t st d) <= perbyte t * (dr_scope d + lenN (r_stream st)) + foot t.
+Proof.
+  destruct (tinv_all zh t st d) as [[H _] _]. rewrite N.mul_add_distr_l. exact H.
+Qed.
+
+(* on success the allocation is bounded by the bytes actually consumed *)
+Theorem alloc_bound_success t st d n st' :
+  fst (view_deser_a zh t st d) = OK (n, st') ->
+  lenN (r_stream st') <= lenN (r_stream st) /\
+  snd (view_deser_a zh t st d)
+    <= perbyte t * (lenN (r_stream st) - lenN (r_stream st')) + foot t.
+Proof.
+  intros E. destruct (tinv_all zh t st d) as [[_ H] _]. destruct (H _ _ E) as [L C].
+  split; [exact L|]. change (lenN (r_stream st)) with (slen st). change (lenN (r_stream st')) with (slen st').
+  assert (exists x, slen st = slen st' + x) as [x Hx] by (exists (slen st - slen st'); lia).
+  rewrite Hx in *. replace (slen st' + x - slen st') with x by lia.
+  rewrite N.mul_add_distr_l in C. lia.
+Qed.
+
+Theorem alloc_bound_top t bs :
+  snd (view_deserialize_a zh t bs) <= 2 * perbyte t * lenN bs + foot t.
+Proof.
+  unfold view_deserialize_a, new_reader.
+  pose proof (alloc_bound t (mkRS bs [N.of_nat (length bs)]) (mkDR 0 (N.of_nat (length bs)) [0%nat])) as H.
+  unfold dr_scope in H. cbn [d_max d_i r_stream] in H. unfold Spec.lenN in *.
+  rewrite snd_abind.
+  destruct (fst (view_deser_a zh t _ _)); cbn [snd alift]; lia.
+Qed.
+
+(* the lemma that carries the property: the length of the offset / element tables that the
+   list decoder allocates is bounded by the scope.
+   [list_table e n st d] is the number of entries of the table (make([]View, length), and
+   make([]uint32, length) for variable-size elements) that ComplexListType.Deserialize
+   allocates for List[e, n] in state (st, d), i.e. its guards written out:
+   None when the decoder returns before allocating a table. *)
+Definition list_table (e : ty) (n : N) (st : rstate) (d : dreader) : option N :=
+  let scope := dr_scope d in
+  if is_basic_elem e then None else
+  if scope =? 0 then None else
+  if ti_fixed (info e) then
+    let esz := ti_size (info e) in
+    let len := scope / esz in
+    if n <? len then None else
+    if negb (mul64 len esz =? scope) then None else Some len
+  else
+    match dr_read_u32 st d with
+    | OK (first, _, _) =>
+      if negb (first mod 4 =? 0) then None else
+      let len := first / 4 in
+      if n <? len then None else
+      if (first =? 0) || (scope <? first) then None else Some len
+    | _ => None
+    end.
+
+Theorem list_table_bounded e n st d len :
+  list_table e n st d = Some len ->
+  1 <= len /\ len <= n /\ len <= dr_scope d /\
+  (if ti_fixed (info e) then len * ti_size (info e) = dr_scope d else 4 * len <= dr_scope d).
+Proof.
+  unfold list_table. destruct (is_basic_elem e); [discriminate|].
+  destruct (N.eqb_spec (dr_scope d) 0) as [Z|Z]; [discriminate|].
+  destruct (ti_fixed (info e)).
+  - set (esz := ti_size (info e)). set (s := dr_scope d) in *.
+    destruct (N.ltb_spec n (s / esz)) as [L|L]; [discriminate|].
+    destruct (N.eqb_spec (mul64 (s / esz) esz) s) as [M|M]; cbn [negb]; [|discriminate].
+    intros H; injection H as <-.
+    destruct (N.eq_dec esz 0) as [E0|E0].
+    { exfalso. rewrite E0 in M. assert (s / 0 = 0) as Hd by (destruct s; reflexivity).
+      rewrite Hd in M. change (mul64 0 0) with 0 in M. lia. }
+    pose proof (N.mul_div_le s esz E0) as D1.
+    unfold mul64, wrap64 in M.
+    assert (s < two64) by (rewrite <- M; apply N.mod_lt; unfold two64; lia).
+    rewrite N.mod_small in M by lia.
+    pose proof (Ndiv_le s esz). split; [|split; [exact L|split; [lia|exact M]]].
+    destruct (N.eq_dec (s / esz) 0) as [Q|Q]; [rewrite Q in M; lia|lia].
+  - destruct (dr_read_u32 st d) as [[[first st1] d1]| |]; try discriminate.
+    destruct (N.eqb_spec (first mod 4) 0) as [M|M]; cbn [negb]; [|discriminate].
+    destruct (N.ltb_spec n (first / 4)) as [L|L]; [discriminate|].
+    destruct (N.eqb_spec first 0) as [F0|F0]; cbn [orb]; [discriminate|].
+    destruct (N.ltb_spec (dr_scope d) first) as [S|S]; [discriminate|].
+    intros H; injection H as <-. lia.
+Qed.
+
+Theorem list_table_none e n st d :
+  is_basic_elem e = false -> list_table e n st d = None ->
+  snd (view_deser_a zh (TList e n) st d) <= c_pair + c_view.
+Proof.
+  intros B. unfold list_table. cbn [view_deser_a]. rewrite B.
+  destruct (dr_scope d =? 0).
+  { intros _. simp_abind. destruct (default_node zh (TList e n)); simp_abind; lia. }
+  destruct (ti_fixed (info e)).
+  - destruct (n <? dr_scope d / ti_size (info e)); [intros _; cbn; lia|].
+    destruct (negb _); [intros _; cbn; lia|discriminate].
+  - destruct (dr_read_u32 st d) as [[[first st1] d1]| |]; simp_abind; try (intros _; lia).
+    destruct (negb (first mod 4 =? 0)); [intros _; cbn; lia|].
+    destruct (n <? first / 4); [intros _; cbn; lia|].
+    destruct ((first =? 0) || (dr_scope d <? first)); [intros _; cbn; lia|discriminate].
+Qed.
+
+Theorem list_table_charged e n st d len :
+  list_table e n st d = Some len ->
+  (if ti_fixed (info e) then len * c_iface else len * 4)
+    <= snd (view_deser_a zh (TList e n) st d).
+Proof.
+  unfold list_table. cbn [view_deser_a].
+  destruct (is_basic_elem e); [discriminate|].
+  destruct (dr_scope d =? 0); [discriminate|].
+  destruct (ti_fixed (info e)).
+  - destruct (n <? dr_scope d / ti_size (info e)); [discriminate|].
+    destruct (negb _); [discriminate|]. intros H; injection H as <-.
+    rewrite abind_charge. cbn [snd]. lia.
+  - destruct (dr_read_u32 st d) as [[[first st1] d1]| |]; try discriminate. simp_abind.
+    destruct (negb (first mod 4 =? 0)); [discriminate|].
+    destruct (n <? first / 4); [discriminate|].
+    destruct ((first =? 0) || (dr_scope d <? first)); [discriminate|].
+    intros H; injection H as <-. cbn [snd]. lia.
+Qed.
+End Final.
+
+(* ------------------------------------------------------------------------------------ *)
+(** * 7. Examples (non-vacuity) *)
+
+Definition zh0 : nat -> chunk := fun _ => zero_chunk.
+(* a list of byte lists, both limits 2^40 *)
+Definition ex_T2 : ty := TList (TList (TUint 1) (2 ^ 40)) (2 ^ 40).
+(* first offset 0x0ffffffc: claims 2^26 - 1 elements *)
+Definition ex_hostile : list byte := [Byte.xfc; Byte.xff; Byte.xff; Byte.x0f].
+(* two empty inner lists *)
+Definition ex_two_empty : list byte :=
+  [Byte.x08; Byte.x00; Byte.x00; Byte.x00; Byte.x08; Byte.x00; Byte.x00; Byte.x00].
+(* second offset 0xffffffff: the first element claims 4 GiB *)
+Definition ex_lying : list byte :=
+  [Byte.x08; Byte.x00; Byte.x00; Byte.x00; Byte.xff; Byte.xff; Byte.xff; Byte.xff; Byte.x01].
+
+Example ex_hostile_alloc :
+  view_deserialize_a zh0 ex_T2 ex_hostile = (Err, 0) /\
+  list_table (TList (TUint 1) (2 ^ 40)) (2 ^ 40) (mkRS ex_hostile [4]) (mkDR 0 4 [0%nat]) = None.
+Proof. vm_compute. split; reflexivity. Qed.
+
+Example ex_lying_alloc : view_deserialize_a zh0 ex_T2 ex_lying = (Err, 40).
+Proof. vm_compute. reflexivity. Qed.
+
+Example ex_two_empty_alloc :
+  snd (view_deserialize_a zh0 ex_T2 ex_two_empty) = 3992 /\
+  is_ok (fst (view_deserialize_a zh0 ex_T2 ex_two_empty)) = true /\
+  list_table (TList (TUint 1) (2 ^ 40)) (2 ^ 40) (mkRS ex_two_empty [8]) (mkDR 0 8 [0%nat]) = Some 2.
+Proof. vm_compute. repeat split; reflexivity. Qed.
+
+(* the bound for this type: 5664 bytes per input byte (twice at top level) + 5536 *)
+Example ex_bound_value :
+  perbyte ex_T2 = 5664 /\ foot ex_T2 = 5536 /\
+  2 * perbyte ex_T2 * Spec.lenN ex_hostile + foot ex_T2 = 50848.
+Proof. vm_compute. repeat split; reflexivity. Qed.
+
+Example ex_uint64_list_alloc :
+  snd (view_deserialize_a zh0 (TList (TUint 8) (2 ^ 60)) ex_two_empty) = 4984 /\
+  snd (view_deserialize_a zh0 (TBitlist (2 ^ 60)) ex_hostile) = 4500.
+Proof. vm_compute. split; reflexivity. Qed.
+
+(* a container with a uint64, a list of lists and a bitlist, all limits huge *)
+Definition ex_T3 : ty :=
+  TContainer [TUint 8; TList (TList (TUint 1) (2 ^ 40)) (2 ^ 50); TBitlist (2 ^ 45)].
+Definition ex_c3 : list byte :=
+  [Byte.x01; Byte.x00; Byte.x00; Byte.x00; Byte.x00; Byte.x00; Byte.x00; Byte.x00;
+   Byte.x10; Byte.x00; Byte.x00; Byte.x00; Byte.x10; Byte.x00; Byte.x00; Byte.x00; Byte.x01].
+Example ex_container_alloc :
+  snd (view_deserialize_a zh0 ex_T3 ex_c3) = 1001 /\
+  is_ok (fst (view_deserialize_a zh0 ex_T3 ex_c3)) = true /\
+  2 * perbyte ex_T3 * Spec.lenN ex_c3 + foot ex_T3 = 209544.
+Proof. vm_compute. repeat split; reflexivity. Qed.
+
+(* hypotheses of [list_table_bounded] / [alloc_bound_success] are satisfiable *)
+Example ex_success_hyp :
+  exists n st', fst (view_deser_a zh0 ex_T2 (mkRS ex_two_empty [8]) (mkDR 0 8 [0%nat])) = OK (n, st').
+Proof. eexists _, _. vm_compute. reflexivity. Qed.
+
+(* Why the bound mentions the bytes left in the stream and not only the scope: the statement
+   quantifies over ALL reader states, including one without any limit reader (empty chain)
+   over a stream longer than the scope, which [new_reader] never produces.  There the
+   children of a series can each consume up to the parent's scope (reads through a child do
+   not advance the parent's index) and the pure bound  perbyte t * scope + foot t  fails: *)
+Definition ex_T4 : ty := TVector (TList (TUint 1) (2 ^ 40)) 3.
+Definition ex_s4 : list byte :=
+  [Byte.x0c; Byte.x00; Byte.x00; Byte.x00; Byte.x10; Byte.x27; Byte.x00; Byte.x00;
+   Byte.x14; Byte.x4e; Byte.x00; Byte.x00] ++ repeat b0 (nat_of 20000).
+Example ex_pure_scope_bound_fails_without_limit :
+  snd (view_deser_a zh0 ex_T4 (mkRS ex_s4 []) (mkDR 0 10000 [])) = 106180 /\
+  perbyte ex_T4 * dr_scope (mkDR 0 10000 []) + foot ex_T4 = 102428.
+Proof. vm_compute. split; reflexivity. Qed.
+(* with the limit reader that NewDecodingReader installs the same input stays below it *)
+Example ex_pure_scope_with_limit :
+  snd (view_deser_a zh0 ex_T4 (mkRS ex_s4 [10000]) (mkDR 0 10000 [0%nat])) = 63108.
+Proof. vm_compute. reflexivity. Qed.
+
+Section Final2.
+Variable zh : nat -> chunk.
+(* whenever the stream holds no more than the scope (as at top level) *)
+Theorem alloc_bound_scope t st d :
+  Spec.lenN (r_stream st) <= dr_scope d ->
+  snd (view_deser_a zh t st d) <= 2 * perbyte t * dr_scope d + foot t.
+Proof.
+  intros H. pose proof (alloc_bound zh t st d) as B.
+  assert (M : perbyte t * (dr_scope d + Spec.lenN (r_stream st)) <= perbyte t * (dr_scope d + dr_scope d))
+    by (apply N.mul_le_mono_l; lia).
+  lia.
+Qed.
+End Final2.
+
+(* ------------------------------------------------------------------------------------ *)
+(** * 8. the bound functions do not depend on any list limit *)
+
+(* the same type with every list / bitlist limit replaced by 0 *)
+Fixpoint erase_limits (t : ty) : ty :=
+  match t with
+  | TBitlist _ => TBitlist 0
+  | TList e _ => TList (erase_limits e) 0
+  | TVector e n => TVector (erase_limits e) n
+  | TContainer fs => TContainer (map erase_limits fs)
+  | TUnion none opts => TUnion none (map erase_limits opts)
+  | _ => t
+  end.
+
+Lemma erase_basic e : is_basic_elem (erase_limits e) = is_basic_elem e.
+Proof. destruct e; reflexivity. Qed.
+
+Theorem bound_limit_free : forall t,
+  perbyte (erase_limits t) = perbyte t /\ foot (erase_limits t) = foot t.
+Proof.
+  induction t using ty_ind'; cbn [erase_limits perbyte foot]; try (split; reflexivity).
+  - rewrite erase_basic. destruct IHt as [-> ->]. split; reflexivity.
+  - rewrite erase_basic. destruct IHt as [-> ->]. split; reflexivity.
+  - unfold lenNn. rewrite map_length. induction H as [|f fs [Hp Hf] _ IH]; [split; reflexivity|].
+    cbn [map fold_right length]. destruct IH as [IH1 IH2]. rewrite Hp, Hf, IH1. split; [reflexivity|].
+    unfold lenNn in IH2. cbn [length] in *. lia.
+  - induction H as [|f fs [Hp Hf] _ IH]; [split; reflexivity|].
+    cbn [map fold_right]. destruct IH as [IH1 IH2]. rewrite Hp, Hf, IH1. split; [reflexivity|]. lia.
+Qed.
